@@ -76,7 +76,7 @@ fn base_seed() -> u64 {
 }
 
 pub fn search(which: &str) -> Option<String> {
-    let n = 400u64;
+    let n = if crate::thorough() { 4000u64 } else { 400u64 };
     for i in 0..n {
         let seed = base_seed().wrapping_mul(1_000_003).wrapping_add(i);
         let (tags, rt, chk) = match which {
